@@ -121,7 +121,14 @@ def probe_eigenpairs(inp: Dict[str, Any]) -> Dict[str, Any]:
         # homogeneous batch of different conformers: molecule i distorted by distort[i] (different amounts -> the iterative solver finishes them in different iterations)
         rngd = np.random.default_rng(inp.get("seed", 0))
         coords = [esh.geom(nm)[1] + rngd.normal(size=esh.geom(nm)[1].shape) * float(dd) for nm, dd in zip(names, inp["distort"])]
-    r = esh.run_named(names, sp, coords=coords)
+    try:
+        r = esh.run_named(names, sp, coords=coords)
+    except Exception as e:
+        if "negative eigenvalues" in str(e) and method == "rpa" and (inp.get("distort") or inp.get("explicit_coords")):
+            # the package refuses an unstable reference loudly (A-B not positive definite at a strongly distorted conformer): outside the quantifier
+            return {"ok": True, "observed": ["unstable reference rejected by the package: " + str(e)[:80]], "expected": "", "predicate": "",
+                    "fields": {"kinds": [], "xmethod": method}, "nontrivial": False}
+        raise
     mol = r["_mol"]
     bad: List[str] = []
     kinds = set()
@@ -348,6 +355,8 @@ def probe_second_evaluation(inp: Dict[str, Any]) -> Dict[str, Any]:
 
 PROBES = {"staggered_batch": probe_staggered_batch, "second_evaluation": probe_second_evaluation, "eigenpairs": probe_eigenpairs, "guess_independence": probe_guess_independence}
 
+CH4_TD = [[0.0, 0.0, 0.0], [0.629, 0.629, 0.629], [0.629, -0.629, -0.629], [-0.629, 0.629, -0.629], [-0.629, -0.629, 0.629]]
+C2H4_D2H = [[0, 0, 0.6695], [0, 0, -0.6695], [0, 0.9289, 1.2321], [0, -0.9289, 1.2321], [0, 0.9289, -1.2321], [0, -0.9289, -1.2321]]
 NH3_SYM = [[0.0, 0, 0.1173], [0, 0.9377, -0.2737], [0.8121, -0.4689, -0.2737], [-0.8121, -0.4689, -0.2737]]
 
 
@@ -356,6 +365,10 @@ def gen_cases(ctx: Ctx):
     cases = []
     cases.append(("eigenpairs", {"names": ["h2o"], "n_states": 8, "xmethod": "cis", "check_rpa_le_cis": True}))   # all roots (nov = 8)
     cases.append(("eigenpairs", {"names": ["nh3"], "n_states": 5, "xmethod": "cis", "symmetric": NH3_SYM, "check_rpa_le_cis": True}))  # degenerate pairs
+    # exactly symmetric molecules: triply degenerate states (T_d methane) and many states of D2h ethene - the Ritz ordering changes between iterations
+    sym_cases = [("ch4", CH4_TD, 3), ("c2h4", C2H4_D2H, 12), ("ch4", CH4_TD, 1), ("c2h4", C2H4_D2H, 4), ("ch4", CH4_TD, 6)]
+    for nm, geo, ns in (sym_cases if ctx.thorough else [sym_cases[ctx.seed % 2], sym_cases[2 + ctx.seed % 3]]):
+        cases.append(("eigenpairs", {"names": [nm], "n_states": ns, "xmethod": "cis", "symmetric": geo, "check_apb": False, "tolerance": 1e-6}))
     cases.append(("eigenpairs", {"names": ["ch2o"], "n_states": 4, "xmethod": "rpa"}))
     cases.append(("eigenpairs", {"names": ["h2o", "h2o"], "n_states": 3, "xmethod": "cis", "method": "PM3"}))
     cases.append(("eigenpairs", {"names": ["ch4"], "n_states": 4, "xmethod": "cis", "method": "AM1", "check_apb": False}))  # corpus: near-degenerate T2 set, 4th root skipped (known finding F20)
